@@ -72,3 +72,25 @@ func init() {
 		return strings.TrimPrefix(r, "/")
 	}
 }
+
+func init() {
+	E := externals
+	E["github.com/cosmos/cosmos-sdk/internal/conv.UnsafeBytesToStr"] = func(fr *frame, args []value) value {
+		return mkStr(args[0].([]value))
+	}
+	E["github.com/cosmos/cosmos-sdk/internal/conv.UnsafeStrToBytes"] = func(fr *frame, args []value) value {
+		return strElems(args[0])
+	}
+	E["github.com/cosmos/cosmos-sdk/types.IsAddrCacheEnabled"] = func(fr *frame, args []value) value { return false }
+}
+
+func init() {
+	E := externals
+	// stack traces are irrelevant: pretend every error already carries one
+	E["cosmossdk.io/errors.stackTrace"] = func(fr *frame, args []value) value { return []value{} }
+	// message texts are kept opaque: Wrapf(err, format, args...) == Wrap(err, format)
+	E["cosmossdk.io/errors.Wrapf"] = func(fr *frame, args []value) value {
+		pkg := fr.i.prog.ImportedPackage("cosmossdk.io/errors")
+		return call(fr.i, fr, 0, pkg.Func("Wrap"), []value{args[0], args[1]})
+	}
+}
